@@ -142,7 +142,7 @@ impl Prop for C19 {
     let nontrivial = wn > 0 && initial.hits.len() >= 2 && (rejected > 0 || changed > 0);
     s.case(case, nontrivial);
     s.count(&format!("mode:{mode}"));
-    s.count(if w == 0 { "window:0" } else if w <= limit { "window:<=limit" } else if w <= top_k { "window:limit+1..top_k" } else { "window:>top_k" });
+    s.count(if w == 0 { "window:0" } else if w <= limit { "window:<=limit" } else if w <= req["candidate_size"].as_u64().unwrap_or(0).max(limit as u64) as usize + 1 { "window:limit+1..max(limit,candidate_size)+1" } else { "window:>max(limit,candidate_size)+1" });
     s.count(&format!("rejected_in_window:{}", rejected.min(3)));
     s.count(&format!("segments:{}", lay.nseg));
     s.count(if plan == json!([{"f":"score","desc":true}]) { "sort:score_fast" } else { "sort:other" });
@@ -168,10 +168,16 @@ impl Prop for C19 {
       let slides = |list: &[(String, f32)]| {
         list.iter().enumerate().any(|(i, a)| rank0.get(&a.0).map(|r| *r >= wn).unwrap_or(false) && list[i + 1..].iter().any(|b| rank0.get(&b.0).map(|r| *r < wn).unwrap_or(false)))
       };
-      if deep_ok && w > top_k && initial.hits.len() > top_k {
-        s.fail("rescore.window-beyond-fetched", "window_size exceeds the max(limit,candidate_size)+1 hits that are fetched before rescoring: hits of the window are neither rescored nor returned", case, obs);
-      } else if deep_ok && rejected > 0 {
-        s.fail("rescore.page-short-after-drops", "min_score removals are not refilled from beyond the fetched max(limit,candidate_size)+1 hits: page shorter than limit or next_cursor missing although more matches exist", case, obs);
+      // the surviving window hits come first and are right; only what follows them (the refill
+      // from behind the window) is short or, with per-segment fetching, wrong
+      let surv = (wn - rejected).min(got.len()).min(want_page.len());
+      let is_prefix = got.len() <= want_page.len() && page_eq(&got[..surv], &want_page[..surv]);
+      let legacy_top_k = req["candidate_size"].as_u64().unwrap_or(0).max(limit as u64) as usize + 1;
+      if deep_ok && rejected > 0 && is_prefix {
+        s.fail("rescore.page-short-after-drops", "min_score removals are not refilled from beyond the fetched max(limit,candidate_size,window_size)+1 hits: page shorter than limit, completed with hits from one segment's surplus, or next_cursor missing although more matches exist", case, obs);
+      } else if deep_ok && w > legacy_top_k && initial.hits.len() > legacy_top_k {
+        // repaired by /repo 089be57 (status fixed in known_findings.json: reported as a violation again)
+        s.fail("rescore.window-beyond-fetched", "window_size exceeds the hits that are fetched before rescoring: hits of the window are neither rescored nor returned", case, obs);
       } else if rejected > 0 && deep_all.as_ref().map(|g| slides(g)).unwrap_or(false) {
         s.fail("rescore.tail-slides-into-window", "after min_score removals the re-sorted prefix is again window_size long, so hits that were never rescored are sorted in among the rescored ones", case, obs);
       } else {
